@@ -229,11 +229,14 @@ RandomAccessIterator partition(RandomAccessIterator first,
   typedef partition_helper<RandomAccessIterator, Predicate> P;
   typename P::partition_helper_state s(first, last, pred);
   on_each(P(&s));
-  if (s.rfirst == first && s.rlast == last) { // perfect !
-    // abort();
+  // All blocks have been handed out (s.first == s.last).  Left of s.first
+  // everything outside the left-over pieces satisfies pred, right of it
+  // nothing does, so it suffices to partition the hull of the left-over
+  // pieces extended to the meeting point.
+  if (s.rlast <= s.rfirst) // no left-over pieces at all
     return s.first;
-  }
-  return std::partition(s.rfirst, s.rlast, pred);
+  return std::partition(std::min(s.rfirst, s.first),
+                        std::max(s.rlast, s.first), pred);
 }
 
 struct pair_dist {
